@@ -1,1 +1,6 @@
+import Props.C01
 import Props.C02
+import Props.C03
+import Props.C07
+import Props.C13
+import Props.C15
